@@ -368,7 +368,7 @@ class Session:
         import tealer.__main__ as tmain
 
         cid = op["c"]
-        fname = cid + ".teal"
+        fname = op.get("fname") or (cid + ".teal")
         with open(os.path.join(self.scratch, fname), "w", encoding="utf-8") as f:
             f.write(self.source(cid))
         skip = {fname}
@@ -430,8 +430,9 @@ class Session:
                     with open(p, encoding="utf-8") as f:
                         files.append([rel, f.read()])
                 else:
-                    with open(p, "rb") as fb:
-                        files.append([rel, hashlib.sha256(fb.read()).hexdigest()[:16]])
+                    # DOT exports are named, not compared: their bytes are not among the results C14
+                    # names (the call-graph printer, for one, lists edges in set order)
+                    files.append([rel, ""])
         ev["obs"] = {
             "stdout": observe.digest(out),
             "exit": code,
